@@ -301,6 +301,10 @@ extract_args(vector_string &args, const string &expr, size_t &p) const {
       }
       p++;
     }
+    if (p > expr.size()) {
+      // An unterminated quoted string ran into the end of the text.
+      p = expr.size();
+    }
     {
       // Back up to strip any trailing whitespace.
       size_t r = p;
